@@ -42,7 +42,8 @@ class InstHooks(ConnectHooks):
     def engine(self, I, obj, method, args, kwargs, site):
         if method == "cursor":
             I.effect("engine", method, args, kwargs, site)
-            return Obj("conn_duck", kind="duck")
+            self.ncursors = getattr(self, "ncursors", 0) + 1
+            return Obj(f"conn_duck#{self.ncursors}", kind="duck", parent=obj)
         return super().engine(I, obj, method, args, kwargs, site)
 
     def apply(self, I, stmt, sql, site):
